@@ -1,3 +1,6 @@
+import Mathlib.Data.List.Sort
+import Mathlib.LinearAlgebra.Lagrange
+import Mathlib.RingTheory.Polynomial.Cyclotomic.Basic
 import Ark.Model.Fft
 import Ark.Proofs.FieldOps
 import Mathlib.Algebra.Field.Basic
@@ -472,6 +475,729 @@ theorem generalNew_of_radix2_none (P : Params F) (n : Nat) (h : radix2New P n = 
     cases mixedNew P n with
     | panic => rfl
     | ok o => cases o <;> rfl
+
+end Field
+
+/-! ## `best_mixed_domain_size`, `MixedRadixEvaluationDomain::new` -/
+
+theorem growAux_spec (n : Nat) : ∀ (fuel r ta : Nat), n ≤ r * 2 ^ fuel →
+    ∃ j, growAux n fuel r ta = (r * 2 ^ j, ta + j) ∧ n ≤ r * 2 ^ j ∧ ∀ i, i < j → r * 2 ^ i < n := by
+  intro fuel
+  induction fuel with
+  | zero =>
+    intro r ta h
+    exact ⟨0, by simp [growAux], by simpa using h, fun i hi => absurd hi (Nat.not_lt_zero i)⟩
+  | succ fuel ih =>
+    intro r ta h
+    by_cases hr : r < n
+    · obtain ⟨j, hj, hge, hlt⟩ := ih (r * 2) (ta + 1) (by rw [Nat.pow_succ] at h; linarith)
+      refine ⟨j + 1, ?_, ?_, ?_⟩
+      · rw [growAux, if_pos hr, hj, Nat.pow_succ]
+        congr 1
+        · ring
+        · omega
+      · rw [Nat.pow_succ]; linarith
+      · intro i hi
+        cases i with
+        | zero => simpa using hr
+        | succ i =>
+          have := hlt i (by omega)
+          rw [Nat.pow_succ]; linarith
+    · exact ⟨0, by simp [growAux, hr], by simp; omega, fun i hi => absurd hi (Nat.not_lt_zero i)⟩
+
+theorem foldl_min_spec {β : Type} (p : β → Prop) [DecidablePred p] (f : β → Nat) (l : List β) :
+    ∀ init : Nat,
+      let R := l.foldl (fun best b => if p b then min best (f b) else best) init
+      R ≤ init ∧ (∀ b ∈ l, p b → R ≤ f b) ∧ (R = init ∨ ∃ b ∈ l, p b ∧ R = f b) := by
+  induction l with
+  | nil => intro init; simp
+  | cons x xs ih =>
+    intro init
+    simp only [List.foldl_cons]
+    obtain ⟨h1, h2, h3⟩ := ih (if p x then min init (f x) else init)
+    have hle : (if p x then min init (f x) else init) ≤ init := by
+      split
+      · exact Nat.min_le_left _ _
+      · exact le_refl _
+    refine ⟨le_trans h1 hle, ?_, ?_⟩
+    · intro b hb hpb
+      rcases List.mem_cons.1 hb with rfl | hb
+      · refine le_trans h1 ?_
+        rw [if_pos hpb]; exact Nat.min_le_right _ _
+      · exact h2 b hb hpb
+    · rcases h3 with h3 | ⟨b, hb, hpb, hR⟩
+      · by_cases hpx : p x
+        · simp only [if_pos hpx] at h3 ⊢
+          rcases Nat.le_total init (f x) with hc | hc
+          · left; rw [h3, Nat.min_eq_left hc]
+          · right; exact ⟨x, List.mem_cons_self, hpx, by rw [h3, Nat.min_eq_right hc]⟩
+        · simp only [if_neg hpx] at h3 ⊢; exact Or.inl h3
+      · exact Or.inr ⟨b, List.mem_cons_of_mem _ hb, hpb, hR⟩
+
+section Field
+variable {F : Type} [Field F] [DecidableEq F]
+
+theorem mixedNew_no_base (P : Params F) (n : Nat) (h : P.smallBase = none) :
+    mixedNew P n = .ok none := by
+  simp only [mixedNew, h]
+
+/-- `best_mixed_domain_size` as a fold over `.1`/`.2` of `growAux` -/
+theorem bestMixedDomainSize_eq (P : Params F) (n q k : Nat) (hq : P.smallBase = some q)
+    (hk : P.smallAdicity = some k) :
+    bestMixedDomainSize P n = .ok ((List.range (k + 1)).foldl (fun best b =>
+      if (growAux n 65 (q ^ b) 0).2 ≤ P.twoAdicity then min best (growAux n 65 (q ^ b) 0).1
+      else best) usizeMax) := by
+  simp only [bestMixedDomainSize, hq, hk]
+
+/-- `best_mixed_domain_size(n)` (for `n ≤ 2^63`, base `q ≥ 1`): the result `R` is
+    `min(usize::MAX, least 2^a·q^b ≥ n with a ≤ s, b ≤ k)` -/
+theorem bestMixedDomainSize_spec (P : Params F) (n q k : Nat) (hq : P.smallBase = some q)
+    (hk : P.smallAdicity = some k) (hq1 : 1 ≤ q) (hn : n ≤ 2 ^ 63) :
+    ∃ R, bestMixedDomainSize P n = .ok R ∧ R ≤ usizeMax ∧
+      (∀ a b, a ≤ P.twoAdicity → b ≤ k → n ≤ 2 ^ a * q ^ b → R ≤ 2 ^ a * q ^ b) ∧
+      (R = usizeMax ∨ ∃ a b, a ≤ P.twoAdicity ∧ b ≤ k ∧ n ≤ 2 ^ a * q ^ b ∧ R = 2 ^ a * q ^ b) := by
+  refine ⟨_, bestMixedDomainSize_eq P n q k hq hk, ?_⟩
+  have hfuel : ∀ b, n ≤ q ^ b * 2 ^ 65 := by
+    intro b
+    have h1 : 1 ≤ q ^ b := Nat.pow_pos hq1
+    have : (2 : Nat) ^ 63 ≤ 2 ^ 65 := by norm_num
+    nlinarith
+  obtain ⟨h1, h2, h3⟩ := foldl_min_spec (fun b => (growAux n 65 (q ^ b) 0).2 ≤ P.twoAdicity)
+    (fun b => (growAux n 65 (q ^ b) 0).1) (List.range (k + 1)) usizeMax
+  refine ⟨h1, ?_, ?_⟩
+  · intro a b ha hb hge
+    obtain ⟨j, hj, hjge, hjlt⟩ := growAux_spec n 65 (q ^ b) 0 (hfuel b)
+    have hja : j ≤ a := by
+      by_contra hc
+      have := hjlt a (by omega)
+      rw [Nat.mul_comm] at this; omega
+    refine le_trans (h2 b (List.mem_range.2 (by omega)) (by rw [hj]; simp; omega)) ?_
+    rw [hj]
+    simp only
+    rw [Nat.mul_comm]
+    exact Nat.mul_le_mul_right _ (Nat.pow_le_pow_right (by norm_num) hja)
+  · rcases h3 with h3 | ⟨b, hb, hpb, hR⟩
+    · exact Or.inl h3
+    · right
+      obtain ⟨j, hj, hjge, hjlt⟩ := growAux_spec n 65 (q ^ b) 0 (hfuel b)
+      rw [hj] at hpb hR
+      simp only [Nat.zero_add] at hpb hR
+      exact ⟨j, b, hpb, by have := List.mem_range.1 hb; omega, by rw [Nat.mul_comm]; exact hjge,
+        by rw [hR, Nat.mul_comm]⟩
+
+theorem bestMixedDomainSize_ne_panic (P : Params F) (n q k : Nat) (hq : P.smallBase = some q)
+    (hk : P.smallAdicity = some k) : bestMixedDomainSize P n ≠ .panic := by
+  rw [bestMixedDomainSize_eq P n q k hq hk]; exact (by intro h; cases h)
+
+theorem getRootOfUnity_ne_panic (P : Params F) (n : Nat)
+    (h : P.largeRoot.isSome → P.smallBase.isSome ∧ P.smallAdicity.isSome) :
+    getRootOfUnity P n ≠ .panic := by
+  unfold getRootOfUnity
+  cases hw : P.largeRoot with
+  | none => simp only; split <;> exact (by intro h; cases h)
+  | some w =>
+    obtain ⟨h1, h2⟩ := h (by simp [hw])
+    obtain ⟨q, hq⟩ := Option.isSome_iff_exists.1 h1
+    obtain ⟨k, hk⟩ := Option.isSome_iff_exists.1 h2
+    simp only [hq, hk]
+    repeat' split
+    all_goals exact (by intro h; cases h)
+
+/-- `MixedRadixEvaluationDomain::new` does not panic when `SMALL_SUBGROUP_BASE` and
+    `SMALL_SUBGROUP_BASE_ADICITY` are both present or both absent -/
+theorem mixedNew_ne_panic (P : Params F) (n : Nat)
+    (h : P.smallBase.isSome ↔ P.smallAdicity.isSome) : mixedNew P n ≠ .panic := by
+  cases hq : P.smallBase with
+  | none => rw [mixedNew_no_base P n hq]; exact (by intro h; cases h)
+  | some q =>
+    obtain ⟨k, hk⟩ := Option.isSome_iff_exists.1 (h.1 (by simp [hq]))
+    have hroot : ∀ m, getRootOfUnity P m ≠ .panic := fun m =>
+      getRootOfUnity_ne_panic P m (fun _ => ⟨by simp [hq], by simp [hk]⟩)
+    unfold mixedNew
+    simp only [hq, bestMixedDomainSize_eq P n q k hq hk]
+    repeat' split
+    all_goals first | (intro h; cases h; done) | skip
+    all_goals (rename_i heq; exact absurd heq (hroot _))
+
+end Field
+
+theorem kAdicity_two_q {q : Nat} (hq2 : 2 ≤ q) (hodd : q % 2 = 1) (a b : Nat)
+    (hn : 2 ^ a * q ^ b < 2 ^ 64) :
+    a < 64 ∧ b < 64 ∧ kAdicity q (2 ^ a * q ^ b) = b ∧ kAdicity 2 (2 ^ a * q ^ b) = a ∧
+    q ^ b < 2 ^ 64 ∧ 2 ^ a < 2 ^ 64 := by
+  have hqpos : 0 < q := by omega
+  have hqb : q ^ b ≤ 2 ^ a * q ^ b := Nat.le_mul_of_pos_left _ (Nat.two_pow_pos a)
+  have h2a : 2 ^ a ≤ 2 ^ a * q ^ b := Nat.le_mul_of_pos_right _ (Nat.pow_pos hqpos)
+  have hb64 : b < 64 := exp_lt_64 hq2 hqb hn
+  have ha64 : a < 64 := exp_lt_64 (le_refl 2) h2a hn
+  refine ⟨ha64, hb64, ?_, ?_, lt_of_le_of_lt hqb hn, lt_of_le_of_lt h2a hn⟩
+  · rw [Nat.mul_comm]
+    exact kAdicity_spec q hq2 (2 ^ a) b (Nat.two_pow_pos a) (not_dvd_two_pow_of_odd hq2 hodd a)
+      (by omega)
+  · exact kAdicity_spec 2 (le_refl 2) (q ^ b) a (Nat.pow_pos hqpos) (not_two_dvd_odd_pow hodd b)
+      (by omega)
+
+section Field
+variable {F : Type} [Field F] [DecidableEq F]
+
+/-- `MixedRadixEvaluationDomain::new(n)` (for `n ≤ 2^63`) on a field with a large subgroup root:
+    when some `2^a·q^b ≥ n` (`a ≤ s`, `b ≤ k`) fits in a `u64`, the result is the domain of the
+    LEAST such size, with a generator of exactly that order -/
+theorem mixedNew_some (P : Params F) (w : F) (q k : Nat) (hw : P.largeRoot = some w)
+    (hq : P.smallBase = some q) (hk : P.smallAdicity = some k) (hq2 : 2 ≤ q) (hodd : q % 2 = 1)
+    (hq64 : q < 2 ^ 64) (hord : orderOf w = 2 ^ P.twoAdicity * q ^ k)
+    (n : Nat) (hn : n ≤ 2 ^ 63) (a b : Nat) (ha : a ≤ P.twoAdicity) (hb : b ≤ k)
+    (hge : n ≤ 2 ^ a * q ^ b) (hlt : 2 ^ a * q ^ b < 2 ^ 64) :
+    ∃ a' b' g, a' ≤ P.twoAdicity ∧ b' ≤ k ∧ n ≤ 2 ^ a' * q ^ b' ∧ 2 ^ a' * q ^ b' < 2 ^ 64 ∧
+      (∀ a b, a ≤ P.twoAdicity → b ≤ k → n ≤ 2 ^ a * q ^ b → 2 ^ a' * q ^ b' ≤ 2 ^ a * q ^ b) ∧
+      orderOf g = 2 ^ a' * q ^ b' ∧
+      mixedNew P n = .ok (some (mkDom g (2 ^ a' * q ^ b') a')) ∧
+      (mkDom g (2 ^ a' * q ^ b') a').Good := by
+  obtain ⟨R, hR, hRmax, hRmin, hRcase⟩ := bestMixedDomainSize_spec P n q k hq hk (by omega) hn
+  have hRle := hRmin a b ha hb hge
+  obtain ⟨a', b', ha', hb', hge', hRe⟩ : ∃ a' b', a' ≤ P.twoAdicity ∧ b' ≤ k ∧
+      n ≤ 2 ^ a' * q ^ b' ∧ R = 2 ^ a' * q ^ b' := by
+    rcases hRcase with h | h
+    · refine ⟨a, b, ha, hb, hge, ?_⟩
+      have : usizeMax = 2 ^ 64 - 1 := rfl
+      omega
+    · exact h
+  have hlt' : 2 ^ a' * q ^ b' < 2 ^ 64 := by omega
+  obtain ⟨ha64, hb64, hkq, hk2, hqb, h2a⟩ := kAdicity_two_q hq2 hodd a' b' hlt'
+  obtain ⟨hg, hgord⟩ := getRootOfUnity_large P w q k hw hq hk hq2 hodd hq64 hord a' b' ha' hb' hlt'
+  have hpos : 0 < 2 ^ a' * q ^ b' := Nat.mul_pos (Nat.two_pow_pos _) (Nat.pow_pos (by omega))
+  obtain ⟨e1, e2, hgood⟩ := mkDomain_good (lg := a') hpos hlt' hgord
+  refine ⟨a', b', _, ha', hb', hge', hlt', ?_, hgord, ?_, hgood⟩
+  · intro a b ha hb hge
+    rw [← hRe]; exact hRmin a b ha hb hge
+  · unfold mixedNew
+    simp only [hq, hR, hRe, hkq, hk2, checkedPow_of_lt hqb, checkedPow_of_lt h2a]
+    have hmod : (q ^ b' * 2 ^ a') % U64 = 2 ^ a' * q ^ b' := by
+      rw [Nat.mul_comm]; exact Nat.mod_eq_of_lt (by rw [U64_eq]; exact hlt')
+    rw [if_neg (by rw [hmod]; exact fun h => h rfl), hg]
+    simp only [e1, e2, mkDom]
+
+end Field
+
+/-! ## vanishing polynomial -/
+
+theorem list_prod_range_eq_finset {M : Type} [CommMonoid M] (f : Nat → M) (n : Nat) :
+    ((List.range n).map f).prod = ∏ i ∈ Finset.range n, f i := by
+  induction n with
+  | zero => simp
+  | succ n ih => rw [List.range_succ, List.map_append, List.prod_append, ih, Finset.prod_range_succ]; simp
+
+theorem list_sum_range_eq_finset {M : Type} [AddCommMonoid M] (f : Nat → M) (n : Nat) :
+    ((List.range n).map f).sum = ∑ i ∈ Finset.range n, f i := by
+  induction n with
+  | zero => simp
+  | succ n ih => rw [List.range_succ, List.map_append, List.sum_append, ih, Finset.sum_range_succ]; simp
+
+/-- `x^n − y^n = ∏_{i<n} (x − ζ^i·y)` for a primitive `n`-th root `ζ` in a domain -/
+theorem prod_range_sub_pow {R : Type} [CommRing R] [IsDomain R] {ζ : R} {n : Nat} (hpos : 0 < n)
+    (hζ : IsPrimitiveRoot ζ n) (x y : R) :
+    ∏ i ∈ Finset.range n, (x - ζ ^ i * y) = x ^ n - y ^ n := by
+  rw [hζ.pow_sub_pow_eq_prod_sub_mul x y hpos]
+  have : NeZero n := ⟨hpos.ne'⟩
+  apply Finset.prod_nbij (fun i => ζ ^ i)
+  · intro i _
+    rw [Polynomial.mem_nthRootsFinset hpos, ← pow_mul, mul_comm, pow_mul, hζ.pow_eq_one, one_pow]
+  · intro i hi j hj h
+    exact hζ.pow_inj (Finset.mem_range.1 hi) (Finset.mem_range.1 hj) h
+  · intro ξ hξ
+    obtain ⟨i, hi, rfl⟩ := hζ.eq_pow_of_pow_eq_one ((Polynomial.mem_nthRootsFinset hpos (1 : R)).1 hξ)
+    exact ⟨i, Finset.mem_range.2 hi, rfl⟩
+  · intro i _; rfl
+
+section Field
+variable {F : Type} [Field F] [DecidableEq F]
+
+theorem Domain.Good.prim {d : Domain F} (hd : d.Good) : IsPrimitiveRoot d.groupGen d.size :=
+  hd.gen_order ▸ IsPrimitiveRoot.orderOf d.groupGen
+
+theorem Domain.Good.offset_ne {d : Domain F} (hd : d.Good) : d.offset ≠ 0 := by
+  intro h
+  have := hd.offInv
+  rw [h, mul_zero] at this
+  exact zero_ne_one this
+
+theorem Domain.Good.gen_ne {d : Domain F} (hd : d.Good) : d.groupGen ≠ 0 :=
+  ne_zero_of_orderOf hd.size_pos hd.gen_order
+
+theorem Domain.Good.size_ne {d : Domain F} (hd : d.Good) : (d.size : F) ≠ 0 :=
+  natCast_ne_zero_of_orderOf hd.size_pos hd.gen_order
+
+/-- `evaluate_vanishing_polynomial(τ) = τ^n − h^n` -/
+theorem evaluateVanishingPolynomial_eq (d : Domain F) (hd : d.Good) (tau : F) :
+    evaluateVanishingPolynomial d tau = tau ^ d.size - d.offset ^ d.size := by
+  rw [evaluateVanishingPolynomial, pow_eq _ _ hd.size_lt, hd.offPow]
+
+/-- `τ^n − h^n = ∏_{x ∈ elements} (τ − x)` -/
+theorem prod_sub_elements (d : Domain F) (hd : d.Good) (tau : F) :
+    ((elements d).map (fun x => tau - x)).prod = tau ^ d.size - d.offset ^ d.size := by
+  rw [elements_eq, List.map_map, list_prod_range_eq_finset,
+    ← prod_range_sub_pow hd.size_pos hd.prim tau d.offset]
+  apply Finset.prod_congr rfl
+  intro i _
+  simp only [Function.comp]; ring
+
+theorem mem_elements_iff (d : Domain F) (x : F) :
+    x ∈ elements d ↔ ∃ i, i < d.size ∧ x = d.offset * d.groupGen ^ i := by
+  rw [elements_eq, List.mem_map]
+  constructor
+  · rintro ⟨i, hi, rfl⟩; exact ⟨i, List.mem_range.1 hi, rfl⟩
+  · rintro ⟨i, hi, rfl⟩; exact ⟨i, List.mem_range.2 hi, rfl⟩
+
+/-- the vanishing polynomial vanishes exactly on the domain elements -/
+theorem evaluateVanishingPolynomial_eq_zero_iff (d : Domain F) (hd : d.Good) (tau : F) :
+    evaluateVanishingPolynomial d tau = 0 ↔ tau ∈ elements d := by
+  rw [evaluateVanishingPolynomial_eq d hd, ← prod_sub_elements d hd, List.prod_eq_zero_iff,
+    List.mem_map]
+  constructor
+  · rintro ⟨x, hx, h⟩
+    rwa [← sub_eq_zero.1 h] at hx
+  · intro h; exact ⟨tau, h, sub_self _⟩
+
+/-- evaluation of a sparse polynomial `Σ c·X^i` -/
+def evalSparse (s : List (Nat × F)) (x : F) : F := (s.map (fun ic => ic.2 * x ^ ic.1)).sum
+
+theorem vanishingPolynomial_eq (d : Domain F) :
+    vanishingPolynomial d = .ok [(0, -d.offsetPowSize), (d.size, 1)] := by
+  simp [vanishingPolynomial, sparseFromCoefficientsVec, dropZerosS, insertByDeg]
+
+theorem evalSparse_vanishing (d : Domain F) (hd : d.Good) (tau : F) :
+    evalSparse [(0, -d.offsetPowSize), (d.size, 1)] tau = evaluateVanishingPolynomial d tau := by
+  rw [evaluateVanishingPolynomial_eq d hd, hd.offPow]
+  simp [evalSparse]; ring
+
+end Field
+
+/-! ## Lagrange coefficients -/
+section Field
+variable {F : Type} [Field F] [DecidableEq F]
+open Polynomial
+
+/-- the `i`-th domain element `h·g^i` -/
+def node (d : Domain F) (i : Nat) : F := d.offset * d.groupGen ^ i
+
+/-- the Lagrange basis value `L_i(τ) = ∏_{j ≠ i, j < n} (τ − x_j)/(x_i − x_j)` -/
+def lagSpec (d : Domain F) (tau : F) (i : Nat) : F :=
+  ∏ j ∈ (Finset.range d.size).erase i, (tau - node d j) / (node d i - node d j)
+
+theorem node_inj (d : Domain F) (hd : d.Good) {i j : Nat} (hi : i < d.size) (hj : j < d.size)
+    (h : node d i = node d j) : i = j :=
+  hd.prim.pow_inj hi hj (mul_left_cancel₀ hd.offset_ne h)
+
+theorem node_injOn (d : Domain F) (hd : d.Good) :
+    Set.InjOn (node d) (Finset.range d.size : Set Nat) := by
+  intro i hi j hj h
+  exact node_inj d hd (Finset.mem_range.1 (by exact_mod_cast hi))
+    (Finset.mem_range.1 (by exact_mod_cast hj)) h
+
+theorem lagSpec_eq_eval_basis (d : Domain F) (tau : F) (i : Nat) :
+    lagSpec d tau i = eval tau (Lagrange.basis (Finset.range d.size) (node d) i) := by
+  rw [lagSpec, Lagrange.basis, eval_prod]
+  apply Finset.prod_congr rfl
+  intro j _
+  simp [Lagrange.basisDivisor, div_eq_mul_inv, mul_comm]
+
+theorem nodal_eq_X_pow_sub (d : Domain F) (hd : d.Good) :
+    Lagrange.nodal (Finset.range d.size) (node d) = X ^ d.size - C (d.offset ^ d.size) := by
+  have hp : IsPrimitiveRoot (C d.groupGen : F[X]) d.size :=
+    hd.prim.map_of_injective (f := (C : F →+* F[X])) C_injective
+  rw [Lagrange.nodal_eq, map_pow, ← prod_range_sub_pow hd.size_pos hp X (C d.offset)]
+  apply Finset.prod_congr rfl
+  intro i _
+  simp only [node, map_mul, map_pow]; ring
+
+theorem node_pow_size (d : Domain F) (hd : d.Good) (i : Nat) :
+    node d i ^ d.size = d.offset ^ d.size := by
+  rw [node, mul_pow, ← pow_mul, mul_comm i, pow_mul, hd.prim.pow_eq_one, one_pow, mul_one]
+
+theorem node_ne_zero (d : Domain F) (hd : d.Good) (i : Nat) : node d i ≠ 0 :=
+  mul_ne_zero hd.offset_ne (pow_ne_zero _ hd.gen_ne)
+
+/-- `L_i(τ)` at a point off the coset: the barycentric closed form -/
+theorem lagSpec_off (d : Domain F) (hd : d.Good) (tau : F) {i : Nat} (hi : i < d.size)
+    (h : tau ≠ node d i) :
+    lagSpec d tau i = (tau ^ d.size - d.offset ^ d.size) *
+      (((d.size : F) * node d i ^ (d.size - 1))⁻¹ * (tau - node d i)⁻¹) := by
+  rw [lagSpec_eq_eval_basis, Lagrange.eval_basis_not_at_node (Finset.mem_range.2 hi) h,
+    Lagrange.nodalWeight_eq_eval_derivative_nodal (Finset.mem_range.2 hi),
+    nodal_eq_X_pow_sub d hd]
+  have hder : eval (node d i) (derivative (X ^ d.size - C (d.offset ^ d.size) : F[X])) =
+      (d.size : F) * node d i ^ (d.size - 1) := by
+    rw [derivative_sub, derivative_X_pow, derivative_C, sub_zero]; simp
+  rw [hder]
+  simp
+
+/-- `L_i(x_m) = δ_{im}` -/
+theorem lagSpec_on (d : Domain F) (hd : d.Good) {i m : Nat} (hi : i < d.size) (hm : m < d.size) :
+    lagSpec d (node d m) i = if node d i = node d m then 1 else 0 := by
+  rw [lagSpec_eq_eval_basis]
+  by_cases h : i = m
+  · subst h
+    rw [if_pos rfl, Lagrange.eval_basis_self (node_injOn d hd) (Finset.mem_range.2 hi)]
+  · rw [if_neg (fun e => h (node_inj d hd hi hm e)),
+      Lagrange.eval_basis_of_ne h (Finset.mem_range.2 hm)]
+
+theorem lagrangeFind_eq (tau g : F) (n : Nat) : ∀ cur : F,
+    (∀ i j, i < n → j < n → cur * g ^ i = cur * g ^ j → i = j) →
+    lagrangeFind tau g n cur = (List.range n).map (fun i => if cur * g ^ i = tau then 1 else 0) := by
+  induction n with
+  | zero => intro cur _; rfl
+  | succ n ih =>
+    intro cur hinj
+    rw [lagrangeFind, List.range_succ_eq_map, List.map_cons, List.map_map]
+    by_cases hc : cur = tau
+    · subst hc
+      rw [if_pos rfl]
+      simp only [pow_zero, mul_one, if_true, List.cons.injEq, true_and]
+      symm
+      rw [List.eq_replicate_iff]
+      refine ⟨by simp, ?_⟩
+      intro b hb
+      obtain ⟨i, hi, rfl⟩ := List.mem_map.1 hb
+      simp only [Function.comp]
+      rw [if_neg]
+      intro e
+      have := hinj (i + 1) 0 (by have := List.mem_range.1 hi; omega) (by omega)
+        (by rw [pow_zero, mul_one]; exact e)
+      omega
+    · rw [if_neg hc]
+      simp only [pow_zero, mul_one, hc, if_false, List.cons.injEq, true_and]
+      rw [ih (cur * g)]
+      · apply List.map_congr_left
+        intro i _
+        simp only [Function.comp, Nat.succ_eq_add_one, pow_succ]
+        congr 2; ring
+      · intro i j hi hj e
+        have := hinj (i + 1) (j + 1) (by omega) (by omega) (by
+          rw [pow_succ, pow_succ]; linear_combination e)
+        omega
+
+theorem lagrangeInvs_eq (tau g gInv : F) (n : Nat) : ∀ li negCur : F,
+    lagrangeInvs tau g gInv n li negCur =
+      (List.range n).map (fun i => li * gInv ^ i * (tau + negCur * g ^ i)) := by
+  induction n with
+  | zero => intro li negCur; rfl
+  | succ n ih =>
+    intro li negCur
+    rw [lagrangeInvs, ih, List.range_succ_eq_map, List.map_cons, List.map_map]
+    simp only [pow_zero, mul_one, List.cons.injEq, true_and]
+    apply List.map_congr_left
+    intro i _
+    simp only [Function.comp, Nat.succ_eq_add_one, pow_succ]; ring
+
+/-- `batch_inversion` on a vector of non-zero entries inverts every entry -/
+theorem batchInversion_of_ne_zero (l : List F) (hl : ∀ x ∈ l, x ≠ 0) :
+    batchInversion l = some (l.map (fun x => x⁻¹)) := by
+  obtain ⟨w, hw, hlen, -, hspec⟩ := Ops.batchInvMul_correct (fieldInterp (F := F)) l 1
+    (fun _ _ => trivial) trivial
+  rw [batchInversion, hw]
+  congr 1
+  apply List.ext_getElem
+  · simp [hlen]
+  · intro i h1 h2
+    have hi : i < l.length := by simpa using h2
+    have := (hspec i hi h1).2 (hl _ (List.getElem_mem hi))
+    simp only [fieldInterp, id] at this
+    rw [this, List.getElem_map, one_mul]
+
+end Field
+
+section Field
+variable {F : Type} [Field F] [DecidableEq F]
+open Polynomial
+
+theorem Domain.Good.genInv_eq {d : Domain F} (hd : d.Good) : d.groupGenInv = d.groupGen⁻¹ :=
+  eq_inv_of_mul_eq_one_left hd.genInv
+
+/-- `evaluate_all_lagrange_coefficients(τ)` never panics and returns the Lagrange basis values
+    `L_i(τ) = ∏_{j≠i} (τ − x_j)/(x_i − x_j)`, in both branches -/
+theorem evaluateAllLagrangeCoefficients_eq (d : Domain F) (hd : d.Good) (tau : F) :
+    evaluateAllLagrangeCoefficients d tau = .ok ((List.range d.size).map (lagSpec d tau)) := by
+  unfold evaluateAllLagrangeCoefficients
+  by_cases hz : evaluateVanishingPolynomial d tau = 0
+  · simp only [hz, if_true]
+    obtain ⟨m, hm, rfl⟩ := (mem_elements_iff d tau).1
+      ((evaluateVanishingPolynomial_eq_zero_iff d hd tau).1 hz)
+    rw [lagrangeFind_eq _ _ _ _ (fun i j hi hj e => node_inj d hd hi hj e)]
+    congr 1
+    apply List.map_congr_left
+    intro i hi
+    exact (lagSpec_on d hd (List.mem_range.1 hi) hm).symm
+  · simp only [hz, if_false, inv?_ne hz]
+    have hnot : ∀ i, i < d.size → tau ≠ node d i := by
+      intro i hi e
+      exact hz ((evaluateVanishingPolynomial_eq_zero_iff d hd tau).2
+        ((mem_elements_iff d tau).2 ⟨i, hi, e⟩))
+    have hgi : d.groupGenInv ≠ 0 := by rw [hd.genInv_eq]; exact inv_ne_zero hd.gen_ne
+    rw [lagrangeInvs_eq, pow_eq _ _ (by have := hd.size_lt; omega), batchInversion_of_ne_zero]
+    · simp only [List.map_map]
+      congr 1
+      apply List.map_congr_left
+      intro i hi
+      have hi' := List.mem_range.1 hi
+      rw [Function.comp, lagSpec_off d hd tau hi' (hnot i hi'), ← evaluateVanishingPolynomial_eq d hd]
+      have hgn : (d.groupGen ^ i) ^ (d.size - 1) = d.groupGenInv ^ i := by
+        rw [hd.genInv_eq, inv_pow]
+        apply eq_inv_of_mul_eq_one_left
+        rw [← pow_succ, Nat.sub_add_cancel hd.size_pos, ← pow_mul, mul_comm, pow_mul,
+          hd.prim.pow_eq_one, one_pow]
+      rw [node, mul_pow, hgn]
+      have h1 := sub_ne_zero.2 (hnot i hi')
+      have h2 := hd.size_ne
+      have h3 : d.offset ^ (d.size - 1) ≠ 0 := pow_ne_zero _ hd.offset_ne
+      have h4 : d.groupGenInv ^ i ≠ 0 := pow_ne_zero _ hgi
+      rw [node] at h1
+      have eB : tau + -d.offset * d.groupGen ^ i = tau - d.offset * d.groupGen ^ i := by ring
+      rw [eB]
+      generalize tau - d.offset * d.groupGen ^ i = B at h1 ⊢
+      generalize evaluateVanishingPolynomial d tau = z at hz ⊢
+      generalize d.offset ^ (d.size - 1) = hh at h3 ⊢
+      generalize d.groupGenInv ^ i = gg at h4 ⊢
+      generalize (d.size : F) = nn at h2 ⊢
+      field_simp
+    · intro x hx
+      obtain ⟨i, hi, rfl⟩ := List.mem_map.1 hx
+      have hi' := List.mem_range.1 hi
+      have h1 := sub_ne_zero.2 (hnot i hi')
+      rw [node] at h1
+      refine mul_ne_zero (mul_ne_zero (mul_ne_zero (inv_ne_zero hz)
+        (mul_ne_zero hd.size_ne (pow_ne_zero _ hd.offset_ne))) (pow_ne_zero _ hgi)) ?_
+      intro e
+      apply h1
+      rw [← e]; ring
+
+/-- Horner evaluation of the dense coefficient list `c` (low degree first) -/
+def evalL (c : List F) (x : F) : F := c.foldr (fun a acc => a + x * acc) 0
+
+/-- the polynomial with coefficient list `c` -/
+noncomputable def polyOf : List F → F[X]
+  | [] => 0
+  | a :: cs => C a + X * polyOf cs
+
+theorem eval_polyOf (c : List F) (x : F) : eval x (polyOf c) = evalL c x := by
+  induction c with
+  | nil => simp [polyOf, evalL]
+  | cons a cs ih => simp only [polyOf, eval_add, eval_C, eval_mul, eval_X, ih, evalL, List.foldr_cons]
+
+theorem coeff_polyOf_of_ge (c : List F) : ∀ m, c.length ≤ m → (polyOf c).coeff m = 0 := by
+  induction c with
+  | nil => intro m _; simp [polyOf]
+  | cons a cs ih =>
+    intro m hm
+    obtain ⟨m', rfl⟩ : ∃ m', m = m' + 1 := ⟨m - 1, by simp at hm; omega⟩
+    rw [polyOf, coeff_add, coeff_C_succ, coeff_X_mul, zero_add]
+    exact ih m' (by simp at hm; omega)
+
+theorem degree_polyOf_lt (c : List F) {n : Nat} (h : c.length ≤ n) : (polyOf c).degree < n := by
+  rw [degree_lt_iff_coeff_zero]
+  intro m hm
+  exact coeff_polyOf_of_ge c m (le_trans h hm)
+
+/-- Lagrange interpolation: `Σ_i L_i(τ)·p(x_i) = p(τ)` for `deg p < n` -/
+theorem sum_lagSpec_mul_eval (d : Domain F) (hd : d.Good) (tau : F) (c : List F)
+    (hc : c.length ≤ d.size) :
+    ∑ i ∈ Finset.range d.size, lagSpec d tau i * evalL c (node d i) = evalL c tau := by
+  have hdeg : (polyOf c).degree < (Finset.range d.size).card := by
+    rw [Finset.card_range]; exact degree_polyOf_lt c hc
+  have h := congrArg (eval tau) (Lagrange.eq_interpolate (node_injOn d hd) hdeg)
+  rw [Lagrange.interpolate_apply, eval_finsetSum, eval_polyOf] at h
+  rw [h]
+  apply Finset.sum_congr rfl
+  intro i _
+  rw [eval_mul, eval_C, eval_polyOf, lagSpec_eq_eval_basis, mul_comm]
+
+theorem zipWith_map_map {α β γ δ : Type} (f : β → γ → δ) (g : α → β) (h : α → γ) (l : List α) :
+    List.zipWith f (l.map g) (l.map h) = l.map (fun x => f (g x) (h x)) := by
+  induction l with
+  | nil => rfl
+  | cons x xs ih => simp [ih]
+
+/-- list form: the inner product of the returned coefficients with the evaluations of `c` on the
+    domain is the evaluation at `τ` -/
+theorem lagrange_interpolation (d : Domain F) (hd : d.Good) (tau : F) (c : List F)
+    (hc : c.length ≤ d.size) :
+    ∃ L, evaluateAllLagrangeCoefficients d tau = .ok L ∧ L.length = d.size ∧
+      (List.zipWith (· * ·) L ((elements d).map (evalL c))).sum = evalL c tau := by
+  refine ⟨_, evaluateAllLagrangeCoefficients_eq d hd tau, by simp, ?_⟩
+  rw [elements_eq, List.map_map, zipWith_map_map, list_sum_range_eq_finset,
+    ← sum_lagSpec_mul_eval d hd tau c hc]
+  rfl
+
+end Field
+
+/-! ## `reindex_by_subdomain` -/
+
+/-- the non-multiples of `q+1` below `m·(q+1)`, in increasing order, are `i + i/q + 1`, `i < m·q` -/
+theorem filter_not_dvd_range (m q : Nat) (hq : 1 ≤ q) :
+    (List.range (m * (q + 1))).filter (fun j => decide (j % (q + 1) ≠ 0)) =
+      (List.range (m * q)).map (fun i => i + i / q + 1) := by
+  apply List.Pairwise.eq_of_mem_iff (r := (· < ·))
+  · exact List.Pairwise.filter _ List.pairwise_lt_range
+  · apply List.Pairwise.map _ _ List.pairwise_lt_range
+    intro a b hab
+    have := Nat.div_le_div_right (c := q) (Nat.le_of_lt hab)
+    show a + a / q + 1 < b + b / q + 1
+    omega
+  · intro a
+    simp only [List.mem_filter, List.mem_range, decide_eq_true_eq, List.mem_map]
+    constructor
+    · rintro ⟨halt, hmod⟩
+      have hk : a / (q + 1) < m := Nat.div_lt_of_lt_mul (by rw [Nat.mul_comm]; exact halt)
+      have hdm := Nat.div_add_mod a (q + 1)
+      have htl : a % (q + 1) < q + 1 := Nat.mod_lt _ (by omega)
+      generalize a / (q + 1) = k at hk hdm
+      generalize a % (q + 1) = t at hmod hdm htl
+      have e1 : (q + 1) * k = q * k + k := by ring
+      refine ⟨q * k + (t - 1), ?_, ?_⟩
+      · have : q * (k + 1) ≤ q * m := Nat.mul_le_mul_left q hk
+        have e2 : q * (k + 1) = q * k + q := by ring
+        rw [Nat.mul_comm m q]; omega
+      · have : (q * k + (t - 1)) / q = k := by
+          rw [Nat.mul_add_div (by omega), Nat.div_eq_of_lt (by omega)]; omega
+        rw [this]; omega
+    · rintro ⟨i, hi, rfl⟩
+      have hk : i / q < m := Nat.div_lt_of_lt_mul (by rw [Nat.mul_comm]; exact hi)
+      have hdm := Nat.div_add_mod i q
+      have hr : i % q < q := Nat.mod_lt _ (by omega)
+      generalize i / q = k at hk hdm
+      generalize i % q = r at hdm hr
+      have e : i + k + 1 = (r + 1) + (q + 1) * k := by rw [← hdm]; ring
+      rw [e]
+      constructor
+      · have : (q + 1) * (k + 1) ≤ (q + 1) * m := Nat.mul_le_mul_left _ hk
+        have e2 : (q + 1) * (k + 1) = (q + 1) * k + (q + 1) := by ring
+        rw [Nat.mul_comm m]; omega
+      · rw [Nat.add_mul_mod_self_left, Nat.mod_eq_of_lt (by omega)]; omega
+
+/-- the multiples of `p` below `m·p` -/
+theorem filter_dvd_range (m p : Nat) (hp : 1 ≤ p) :
+    (List.range (m * p)).filter (fun j => decide (j % p = 0)) = (List.range m).map (· * p) := by
+  apply List.Pairwise.eq_of_mem_iff (r := (· < ·))
+  · exact List.Pairwise.filter _ List.pairwise_lt_range
+  · apply List.Pairwise.map _ _ List.pairwise_lt_range
+    intro a b hab
+    exact Nat.mul_lt_mul_of_pos_right hab hp
+  · intro a
+    simp only [List.mem_filter, List.mem_range, decide_eq_true_eq, List.mem_map]
+    constructor
+    · rintro ⟨halt, hmod⟩
+      obtain ⟨k, rfl⟩ := Nat.dvd_of_mod_eq_zero hmod
+      refine ⟨k, ?_, Nat.mul_comm _ _⟩
+      rw [Nat.mul_comm p k] at halt
+      exact Nat.lt_of_mul_lt_mul_right halt
+    · rintro ⟨k, hk, rfl⟩
+      exact ⟨Nat.mul_lt_mul_of_pos_right hk hp, Nat.mul_mod_left _ _⟩
+
+/-- the re-indexing order: first the multiples of `period`, then all other indices -/
+def reindexOrder (N m : Nat) : List Nat :=
+  (List.range m).map (· * (N / m)) ++ (List.range N).filter (fun j => decide (j % (N / m) ≠ 0))
+
+/-- `reindexOrder` enumerates `[0, N)` exactly once -/
+theorem reindexOrder_perm (N m : Nat) (hN : 0 < N) (hdvd : m ∣ N) :
+    (reindexOrder N m).Perm (List.range N) := by
+  obtain ⟨p, rfl⟩ := hdvd
+  have hm : 0 < m := Nat.pos_of_mul_pos_right hN
+  have hp : 0 < p := Nat.pos_of_mul_pos_left hN
+  unfold reindexOrder
+  rw [Nat.mul_div_cancel_left p hm, ← filter_dvd_range m p hp]
+  have := List.filter_append_perm (fun j => decide (j % p = 0)) (List.range (m * p))
+  refine List.Perm.trans ?_ this
+  apply List.Perm.append (List.Perm.refl _)
+  apply List.Perm.of_eq
+  apply List.filter_congr
+  intro j _
+  simp
+
+section Field
+variable {F : Type} [Field F] [DecidableEq F]
+
+/-- `reindex_by_subdomain(other, idx)` for a subdomain size dividing the domain size and an
+    index inside the domain: no panic, and the result is the `idx`-th entry of `reindexOrder` -/
+theorem reindexBySubdomain_spec (self other : Domain F) (idx : Nat)
+    (hdvd : other.size ∣ self.size) (hidx : idx < self.size) (hlt : self.size ≤ 2 ^ 64) :
+    ∃ r, reindexBySubdomain self other idx = .ok r ∧
+      (reindexOrder self.size other.size)[idx]? = some r := by
+  obtain ⟨p, hNp⟩ := hdvd
+  have hN : 0 < self.size := by omega
+  have hm : 0 < other.size := by
+    rcases Nat.eq_zero_or_pos other.size with h | h
+    · rw [h, Nat.zero_mul] at hNp; omega
+    · exact h
+  have hp : 0 < p := by
+    rcases Nat.eq_zero_or_pos p with h | h
+    · rw [h, Nat.mul_zero] at hNp; omega
+    · exact h
+  have hle : other.size ≤ self.size := by rw [hNp]; exact Nat.le_mul_of_pos_right _ hp
+  have hper : self.size / other.size = p := by rw [hNp, Nat.mul_div_cancel_left p hm]
+  unfold reindexBySubdomain reindexOrder
+  rw [if_neg (by omega), if_neg (by omega)]
+  simp only [hper]
+  by_cases hi : idx < other.size
+  · rw [if_pos hi]
+    have hb : idx * p < self.size := by rw [hNp]; exact Nat.mul_lt_mul_of_pos_right hi hp
+    refine ⟨_, rfl, ?_⟩
+    rw [List.getElem?_append_left (by simpa using hi), Nat.mod_eq_of_lt (by rw [U64_eq]; omega)]
+    simp [hi]
+  · rw [if_neg hi]
+    have hp2 : 2 ≤ p := by
+      by_contra hc
+      have : p = 1 := by omega
+      rw [this, Nat.mul_one] at hNp; omega
+    rw [if_neg (by omega)]
+    obtain ⟨q, rfl⟩ : ∃ q, p = q + 1 := ⟨p - 1, by omega⟩
+    have hq : 1 ≤ q := by omega
+    have hmq : other.size * (q + 1) = other.size * q + other.size := by ring
+    have hi2 : idx - other.size < other.size * q := by omega
+    have hget : ((List.range self.size).filter (fun j => decide (j % (q + 1) ≠ 0)))[idx - other.size]?
+        = some (idx - other.size + (idx - other.size) / q + 1) := by
+      rw [hNp, filter_not_dvd_range _ q hq]
+      simp [hi2]
+    have hbound : idx - other.size + (idx - other.size) / q + 1 < self.size := by
+      have := List.mem_of_getElem? hget
+      exact List.mem_range.1 (List.mem_filter.1 this).1
+    refine ⟨_, rfl, ?_⟩
+    rw [List.getElem?_append_right (by simpa using Nat.le_of_not_lt hi)]
+    simp only [List.length_map, List.length_range, Nat.add_sub_cancel]
+    rw [hget, Nat.mod_eq_of_lt (by rw [U64_eq]; omega)]
+
+end Field
+
+/-! ## `Radix2EvaluationDomain::new`: derived forms -/
+section Field
+variable {F : Type} [Field F] [DecidableEq F]
+
+theorem radix2New_ne_panic (P : Params F) (hP : P.WF) (n : Nat) : radix2New P n ≠ .panic := by
+  rcases radix2New_cases P hP n with ⟨h, -⟩ | ⟨-, -, g, -, h⟩ <;> rw [h] <;> (intro h; cases h)
+
+theorem radix2New_none_iff (P : Params F) (hP : P.WF) (n : Nat) :
+    radix2New P n = .ok none ↔ (P.twoAdicity < Nat.clog 2 n ∨ 64 ≤ Nat.clog 2 n) := by
+  rcases radix2New_cases P hP n with ⟨h, h'⟩ | ⟨h1, h2, g, -, h⟩
+  · exact ⟨fun _ => h', fun _ => h⟩
+  · constructor
+    · intro e; rw [h] at e; cases e
+    · intro e; omega
+
+/-- the successful case: the domain of the least power of two `≥ n` -/
+theorem radix2New_some (P : Params F) (hP : P.WF) (n : Nat) (h1 : Nat.clog 2 n ≤ P.twoAdicity)
+    (h2 : Nat.clog 2 n < 64) :
+    ∃ d, radix2New P n = .ok (some d) ∧ d.Good ∧
+      d.logSizeOfGroup = Nat.clog 2 n ∧ d.size = 2 ^ d.logSizeOfGroup ∧ n ≤ d.size ∧
+      (∀ k, n ≤ 2 ^ k → d.size ≤ 2 ^ k) ∧
+      orderOf d.groupGen = d.size ∧ d.groupGenInv * d.groupGen = 1 ∧
+      d.sizeInv * (d.size : F) = 1 ∧ d.sizeAsFieldElement = (d.size : F) ∧
+      d.offset = 1 ∧ d.offsetInv = 1 ∧ d.offsetPowSize = 1 := by
+  rcases radix2New_cases P hP n with ⟨-, h'⟩ | ⟨-, -, g, hg, h⟩
+  · omega
+  · have hgood := (mkDomain_good (lg := Nat.clog 2 n) (Nat.two_pow_pos _)
+      (Nat.pow_lt_pow_right (by norm_num) h2) hg).2.2
+    refine ⟨_, h, hgood, rfl, rfl, le_two_pow_clog n, ?_, hgood.gen_order, hgood.genInv,
+      hgood.sizeInv, hgood.sizeF, rfl, rfl, rfl⟩
+    intro k hk
+    exact Nat.pow_le_pow_right (by norm_num) ((Nat.clog_le_iff_le_pow (by norm_num)).2 hk)
 
 end Field
 
